@@ -1,15 +1,17 @@
 import Model.Eval
 import Model.Fixed
 import Model.FixedText
+import Model.EvalSoftFloat
 /-! C09, values of the FIXED-POINT evaluator: `eval/fixed_operators.go` and the integer-only part of
     `eval/fixed_function.go`, transcribed branch for branch on top of the parser model `Model/Eval.lean`, with the
     arithmetic of `Model/Fixed.lean` (C03: `F64.add/sub/mul/div/mod/abs/trunc/ceil/round/min/max`, raw `int64`
     wrap-around) and the text forms of `Model/FixedText.lean` (C04: `FromString`, `String`).  Core-only.
 
     Dynamic values (`any`) are `Val`: a fixed-point number (its raw `int64`), a Go bool, or a string (operand text).
-    What goes through `float64` stays OUTSIDE the model and yields `VR.outside` (the check takes those values from the
-    implementation): literals written with an exponent (`FromString`'s `strconv.ParseFloat` branch), the operator `^`
-    (`math.Pow`) and the functions sqrt, cbrt, exp, exp2, log, log10, log1p.  Everything else — operand conversion
+    Literals written with an exponent (`FromString`'s `strconv.ParseFloat` branch, then `From[T](float64)`) are
+    computed with the IEEE-754 model `Model/EvalSoftFloat.lean`.  OUTSIDE the model (`VR.outside`, the check takes
+    those values from the implementation): the operator `^` (`math.Pow`), the functions sqrt, cbrt, exp, exp2, log,
+    log10, log1p, and exponent literals whose scaled value leaves `int64`.  Everything else — operand conversion
     `FixedFrom`, `|| && == != < <= > >= + - * / %` incl. their string fall-backs and the configured division by
     zero, the signs `! + -`, the functions abs, ceil, floor, round, max, min, if — is computed here. -/
 namespace EvalFixed
@@ -65,9 +67,34 @@ def floatByte (ch : Nat) : Bool :=
   (48 ≤ ch && ch ≤ 57) || (97 ≤ ch && ch ≤ 102) || (65 ≤ ch && ch ≤ 70) || ch == 120 || ch == 88 || ch == 112 || ch == 80 ||
     ch == 46 || ch == 95 || ch == 43 || ch == 45
 
+/-- `float64(n)` for a natural number (exact for the multipliers `10^k`, `k ≤ 16`: `5^16 < 2^53`) -/
+def f64OfNat (n : Nat) : Nat := SoftFloat.ofRat SoftFloat.f64 false n 1
+
+/-- Go's conversion `int64(x)` of a `float64` (its bit pattern): the value truncated toward zero; `none` for NaN, ±Inf
+    and values outside `int64`, where the Go specification leaves the result to the implementation -/
+def toInt64 (b : Nat) : Option Int :=
+  match SoftFloat.decode SoftFloat.f64 b with
+  | .fin s m e =>
+    let t : Nat := if 0 ≤ e then m * 2 ^ e.toNat else m / 2 ^ (-e).toNat
+    if -2 ^ 63 ≤ SoftFloat.sgn s t ∧ SoftFloat.sgn s t < 2 ^ 63 then some (SoftFloat.sgn s t) else none
+  | _ => none
+
+/-- the `strings.ContainsAny(str, "Ee")` branch of `f64.FromString` (commas already removed):
+    `f, err := strconv.ParseFloat(str, 64)`, then `From[T](f)` = `Int[T](f * float64(Multiplier[T]()))` — one correctly
+    rounded float64 product, then the truncating conversion.  `outside`: hexadecimal / `_` literals (not in
+    `SoftFloat.parse`) and products beyond `int64` -/
+def fromExp (c : Cfg) (s : Bytes) : VR Int :=
+  match SoftFloat.parse SoftFloat.f64 s with
+  | .err => .err
+  | .outside => .outside
+  | .ok x =>
+    match toInt64 (SoftFloat.mul SoftFloat.f64 x (f64OfNat c.mult.toNat)) with
+    | some v => .ok v
+    | none => .outside
+
 /-- `FixedFrom[T](arg)`: `f64.From[T, int](1)` / 0 for a bool, the value itself, `f64.FromString[T]` for a string.
     A text with `e`/`E` goes to `strconv.ParseFloat`: an error when it holds a byte no float literal can hold (true,
-    false, yes …), otherwise outside the model -/
+    false, yes …), otherwise `fromExp` -/
 def fixedFrom (c : Cfg) : Val → VR Int
   | .bool b => .ok (if b then Fixed.F64.fromInt c.mult 1 else 0)
   | .num raw => .ok raw
@@ -75,7 +102,7 @@ def fixedFrom (c : Cfg) : Val → VR Int
     match FixedText.fromStr64 c.places c.mult s with
     | .ok raw => .ok raw
     | .err => .err
-    | .exp => if (FixedText.stripCommas s).all floatByte then .outside else .err   -- strconv.ParseFloat branch
+    | .exp => if (FixedText.stripCommas s).all floatByte then fromExp c (FixedText.stripCommas s) else .err
 
 /-! ### operators (`fixed_operators.go`) -/
 
